@@ -95,8 +95,7 @@ pub fn check_project(ctx: &Ctx, n: u64, pv: &ProjView) -> (Vec<Violation>, Vec<V
         cli::cleanup(&dir);
         return (v06, v20, 0, 0);
     }
-    let cwd = dir.join(&pv.root);
-    let r = cli::run_cli(&ctx.cli, &cwd, &["generate", "--output-format", "json"], Duration::from_secs(120));
+    let (r, _style) = cli::run_cli_any_style(&ctx.cli, &dir, &pv.root, &pv.files, &["generate", "--output-format", "json"], Duration::from_secs(120));
     if r.status != Some(0) {
         cli::cleanup(&dir);
         return (v06, v20, 0, 0); // not a case of these properties (C18 / C04 own failures of valid projects)
